@@ -43,7 +43,7 @@ def gen_scenario(r, tier):
     if faulty:
         ops.append(r.choice(["fault drop ACKNACK -1 -1 -1", "fault hold ACKNACK -1 -1 -1",
                              "fault drop ACKNACK -1 -1 2", "fault hold ACKNACK -1 -1 3"]))
-    data_faults = tier != "quick" and r.random() < 0.15
+    data_faults = r.random() < 0.2
     for _ in range(n):
         x = r.random()
         if x < 0.55:
@@ -84,6 +84,10 @@ def corpus():
         # held ACKNACKs: the parked write completes when the ACKNACK arrives
         hdr + "W 0 0 rel=1 hist=2 mbt=100000000 dur=1 ; R 0 0 rel=1 ; net ; ms 0 ; fault hold ACKNACK -1 -1 -1 ; "
               "w 0 1 10 ; w 0 1 10 ; net ; w 0 1 10 ; adv 50000000 ; rel ; clr ; net ; w 0 1 10 ; w 0 1 10 ; w 0 1 10 ; net" + end,
+        # the DATA of the first sample is lost: it may only be replaced after the reader has it (a writer that
+        # replaced it at once would lose it for good: the reader would be sent a GAP)
+        hdr + "W 0 0 rel=1 hist=1 mbt=100000000 dur=1 ; R 0 0 rel=1 ; net ; ms 0 ; fault drop DATA 1 -1 -1 ; "
+              "w 0 1 10 ; net ; w 0 1 10 ; net ; adv 150000000" + end,
         # boundary of the blocking time: one nanosecond before / exactly at the expiration
         hdr + "W 0 0 rel=1 hist=1 mbt=100000000 dur=1 ; R 0 0 rel=1 ; net ; ms 0 ; fault drop ACKNACK -1 -1 -1 ; "
               "w 0 1 10 ; w 0 1 10 ; adv 99999999 ; adv 1 ; w 0 1 10 ; adv 100000000" + end,
